@@ -83,6 +83,15 @@ def _has_return_in(node: ast.AST) -> bool:
   return False
 
 
+def _kwarg_passthrough_only(fn: ast.FunctionDef) -> bool:
+  """The `**kwargs` parameter is mentioned only as `**kwargs` in calls (passed on verbatim)."""
+  kw = fn.args.kwarg.arg
+  passed = {id(k.value) for x in ast.walk(fn) if isinstance(x, ast.Call) for k in x.keywords if k.arg is None
+            and isinstance(k.value, ast.Name) and k.value.id == kw}
+  names = [x for x in ast.walk(fn) if isinstance(x, ast.Name) and x.id == kw]
+  return bool(names) and all(id(x) in passed for x in names)
+
+
 def _suitable(fn: ast.FunctionDef) -> bool:
   if not isinstance(fn, ast.FunctionDef):
     return False
@@ -90,7 +99,9 @@ def _suitable(fn: ast.FunctionDef) -> bool:
     if not (isinstance(d, ast.Name) and d.id in ('staticmethod', 'classmethod')):
       return False
   a = fn.args
-  if a.vararg or a.kwarg or a.posonlyargs:
+  if a.vararg or a.posonlyargs:
+    return False
+  if a.kwarg and not _kwarg_passthrough_only(fn):
     return False
   for dflt in list(a.defaults) + [d for d in a.kw_defaults if d is not None]:
     if not isinstance(dflt, ast.Constant):
@@ -484,7 +495,7 @@ class _Inliner:
         expr = _as_expression(helper)
         if expr is None:
           return node
-        if any(isinstance(a, ast.Starred) for a in node.args) or any(k.arg is None for k in node.keywords):
+        if any(isinstance(a, ast.Starred) for a in node.args) or any(k.arg is None for k in node.keywords) or helper.args.kwarg:
           return node
         params = [a.arg for a in helper.args.args]
         kwonly = [a.arg for a in helper.args.kwonlyargs]
@@ -587,6 +598,24 @@ class _Inliner:
       h = meths[f.attr]
       is_static = any(isinstance(d, ast.Name) and d.id == 'staticmethod' for d in h.decorator_list)
       return h, (None if is_static else f.value)
+    # `r.m(..)` on a local bound once to a freshly built private record (NamedTuple / dataclass / attrs value object)
+    if isinstance(f, ast.Attribute) and isinstance(f.value, ast.Name) and not (fn.args.args and f.value.id == fn.args.args[0].arg):
+      rec_meths = getattr(self, '_rec_meths', None)
+      if rec_meths is None:
+        rec_meths = self._rec_meths = {
+            c.name: {m.name: m for m in c.body if isinstance(m, ast.FunctionDef) and not m.decorator_list and _suitable(m)}
+            for c in self.tree.body if isinstance(c, ast.ClassDef) and c.name in _record_classes(self.tree) and c.name.startswith('_')}
+      if rec_meths:
+        x = f.value.id
+        binds = [a for a in ast.walk(fn) if isinstance(a, ast.Name) and a.id == x and isinstance(a.ctx, (ast.Store, ast.Del))]
+        if binds and x not in {a.arg for a in fn.args.args + fn.args.kwonlyargs}:
+          asgs = [a for a in ast.walk(fn) if isinstance(a, ast.Assign) and len(a.targets) == 1 and any(a.targets[0] is b for b in binds)]
+          classes = {a.value.func.id for a in asgs if isinstance(a.value, ast.Call) and isinstance(a.value.func, ast.Name)}
+          if len(asgs) == len(binds) and len(classes) == 1 and all(
+              isinstance(a.value, ast.Call) and isinstance(a.value.func, ast.Name) for a in asgs):
+            cname = next(iter(classes))
+            if f.attr in rec_meths.get(cname, {}):
+              return rec_meths[cname][f.attr], f.value
     return None
 
   # ------------------------------------------------------------------ hoisting of nested helper calls
@@ -721,7 +750,7 @@ class _Inliner:
       return False
     if escapes(st.body) or any(isinstance(x, (ast.Yield, ast.YieldFrom)) for b in st.body for x in ast.walk(b)):
       return None
-    if any(isinstance(a, ast.Starred) for a in call.args) or any(k.arg is None for k in call.keywords):
+    if any(isinstance(a, ast.Starred) for a in call.args) or any(k.arg is None for k in call.keywords) or helper.args.kwarg:
       return None
     params = [a.arg for a in helper.args.args]
     bound: Dict[str, ast.AST] = {}
@@ -799,7 +828,7 @@ class _Inliner:
     if r is None or not _is_ctxmgr(r[0]):
       return None
     helper, recv = r
-    if any(isinstance(a, ast.Starred) for a in call.args) or any(k.arg is None for k in call.keywords):
+    if any(isinstance(a, ast.Starred) for a in call.args) or any(k.arg is None for k in call.keywords) or helper.args.kwarg:
       return None
     params = [a.arg for a in helper.args.args]
     bound: Dict[str, ast.AST] = {}
@@ -954,7 +983,12 @@ class _Inliner:
     for p, a in zip(pos, call.args):
       bound[p] = a
       order.append(p)
+    extra_kw: List[ast.keyword] = []
     for k in call.keywords:
+      if k.arg not in bound and k.arg not in params + kwonly and helper.args.kwarg and _simple(k.value):
+        # lands in the helper's **kwargs, which the helper only passes on
+        extra_kw.append(k)
+        continue
       if k.arg in bound or k.arg not in params + kwonly:
         return None
       bound[k.arg] = k.value
@@ -999,6 +1033,18 @@ class _Inliner:
       body = _complete(_to_tail(body), st)
     sub = _Subst(mapping, rename)
     body = [sub.visit(s) for s in body]
+    if helper.args.kwarg:
+      kwname = helper.args.kwarg.arg
+      for b_ in body:
+        for x in ast.walk(b_):
+          if isinstance(x, ast.Call):
+            newk = []
+            for k in x.keywords:
+              if k.arg is None and isinstance(k.value, ast.Name) and k.value.id in (kwname, rename.get(kwname)):
+                newk.extend(ast.keyword(arg=e_.arg, value=copy.deepcopy(e_.value)) for e_ in extra_kw)
+              else:
+                newk.append(k)
+            x.keywords = newk
     res = f'ret__{tag}'
     if flagged:
       return self._inline_flagged(st, mode, body, pre, res, tag, helper)
@@ -1350,19 +1396,35 @@ def _record_classes(tree: ast.Module) -> Dict[str, List[Tuple[str, Optional[ast.
     bases = {(b.attr if isinstance(b, ast.Attribute) else getattr(b, 'id', '')) for b in st.bases}
     decos = {(d.func if isinstance(d, ast.Call) else d) for d in st.decorator_list}
     deco_names = {(d.attr if isinstance(d, ast.Attribute) else getattr(d, 'id', '')) for d in decos}
-    if 'NamedTuple' not in bases and 'dataclass' not in deco_names:
+    attrs_auto = False
+    for d in st.decorator_list:
+      dn = _chain(d.func if isinstance(d, ast.Call) else d) or ''
+      if dn.split('.')[0] in ('attr', 'attrs') and dn.rsplit('.', 1)[-1] in ('define', 'frozen', 'mutable'):
+        attrs_auto = True
+      if dn in ('attr.s', 'attr.attrs', 'attrs.attrs') and isinstance(d, ast.Call) and any(
+          k.arg == 'auto_attribs' and isinstance(k.value, ast.Constant) and k.value.value is True for k in d.keywords):
+        attrs_auto = True
+    if attrs_auto and (st.bases or not st.name.startswith('_') or any(
+        isinstance(m, ast.FunctionDef) and m.name in ('__init__', '__attrs_post_init__', '__attrs_pre_init__', '__new__') for m in st.body)):
+      continue
+    if 'NamedTuple' not in bases and 'dataclass' not in deco_names and not attrs_auto:
       continue
     if 'dataclass' in deco_names and st.bases:
       continue
     fields = [(m.target.id, m.value) for m in st.body if isinstance(m, ast.AnnAssign) and isinstance(m.target, ast.Name)]
+    if attrs_auto:
+      # attr.ib(...) / attr.field(...) declarations: converters, validators and factories are outside the model
+      if any(isinstance(v, ast.Call) for _, v in fields):
+        continue
     if fields:
       out[st.name] = fields
   return out
 
 
 def _sroa_function(fn: ast.FunctionDef, records: Dict[str, List[Tuple[str, Optional[ast.AST]]]]) -> int:
-  """`r = Rec(a, f=b)` bound once, `r` used only as `r.<field>` loads: the record is replaced by one local per
-  field (`r__f`), so dataflow through a NamedTuple carrier looks like dataflow through plain locals."""
+  """`r = Rec(a, f=b)` (every binding of `r` is such a construction of one record class), `r` used only as
+  `r.<field>` loads: the record is replaced by one local per field (`r__f`), so dataflow through a NamedTuple carrier
+  looks like dataflow through plain locals."""
   n = 0
   stores: Dict[str, List[ast.Assign]] = {}
   for x in ast.walk(fn):
@@ -1373,67 +1435,83 @@ def _sroa_function(fn: ast.FunctionDef, records: Dict[str, List[Tuple[str, Optio
     if isinstance(x, ast.Name) and isinstance(x.ctx, (ast.Store, ast.Del)):
       all_stores[x.id] = all_stores.get(x.id, 0) + 1
   params = {a.arg for a in fn.args.args + fn.args.kwonlyargs + fn.args.posonlyargs}
-  for name, asg in stores.items():
-    if len(asg) != 1 or all_stores.get(name, 0) != 1 or name in params:
+  for name, asgs in stores.items():
+    if all_stores.get(name, 0) != len(asgs) or name in params:
       continue
-    a = asg[0]
-    v = a.value
-    if not (isinstance(v, ast.Call) and isinstance(v.func, ast.Name) and v.func.id in records):
+    if not all(isinstance(a.value, ast.Call) and isinstance(a.value.func, ast.Name) and a.value.func.id in records for a in asgs):
       continue
-    fields = records[v.func.id]
-    if any(isinstance(x, ast.Starred) for x in v.args) or any(k.arg is None for k in v.keywords) or len(v.args) > len(fields):
+    if len({a.value.func.id for a in asgs}) != 1:
       continue
-    vals: Dict[str, ast.AST] = {}
-    for (f, _), arg in zip(fields, v.args):
-      vals[f] = arg
-    for k in v.keywords:
-      vals[k.arg] = k.value
+    fields = records[asgs[0].value.func.id]
+    all_vals: List[Dict[str, ast.AST]] = []
     ok = True
-    for f, d in fields:
-      if f not in vals:
-        if d is None:
-          ok = False
-        else:
-          vals[f] = d
-    if not ok or set(vals) != {f for f, _ in fields}:
+    for a in asgs:
+      v = a.value
+      if any(isinstance(x, ast.Starred) for x in v.args) or any(k.arg is None for k in v.keywords) or len(v.args) > len(fields):
+        ok = False
+        break
+      vals: Dict[str, ast.AST] = {}
+      for (f, _), arg in zip(fields, v.args):
+        vals[f] = arg
+      for k in v.keywords:
+        vals[k.arg] = k.value
+      for f, d in fields:
+        if f not in vals:
+          if d is None:
+            ok = False
+          else:
+            vals[f] = copy.deepcopy(d)
+      if not ok or set(vals) != {f for f, _ in fields}:
+        ok = False
+        break
+      all_vals.append(vals)
+    if not ok:
       continue
+    fieldset = {f for f, _ in fields}
     # every other mention of the record must be a field load
     uses = [x for x in ast.walk(fn) if isinstance(x, ast.Name) and x.id == name and isinstance(x.ctx, ast.Load)]
     attr_uses = [x for x in ast.walk(fn) if isinstance(x, ast.Attribute) and isinstance(x.value, ast.Name)
-                 and x.value.id == name and isinstance(x.ctx, ast.Load) and x.attr in vals]
+                 and x.value.id == name and isinstance(x.ctx, ast.Load) and x.attr in fieldset]
     if len(uses) != len(attr_uses) or not uses:
       continue
     # nested scopes that mention the record: give up (late binding)
     nested = [y for y in ast.walk(fn) if y is not fn and isinstance(y, (ast.FunctionDef, ast.Lambda))]
     if any(isinstance(z, ast.Name) and z.id == name for y in nested for z in ast.walk(y)):
       continue
-    repl = [ast.copy_location(ast.Assign(targets=[ast.Name(id=f'{name}__{f}', ctx=ast.Store())], value=vals[f],
-                                         lineno=a.lineno), a) for f, _ in fields]
-    for r in repl:
-      ast.fix_missing_locations(r)
 
-    class _R(ast.NodeTransformer):
-      def visit_Attribute(self, x: ast.Attribute):
-        if isinstance(x.value, ast.Name) and x.value.id == name and isinstance(x.ctx, ast.Load) and x.attr in vals:
-          return ast.copy_location(ast.Name(id=f'{name}__{x.attr}', ctx=ast.Load()), x)
-        return self.generic_visit(x)
-
-    def splice(stmts: List[ast.stmt]) -> bool:
+    def splice(stmts: List[ast.stmt], a, repl) -> bool:
       for i, st in enumerate(stmts):
         if st is a:
           stmts[i:i + 1] = repl
           return True
         for fld in ('body', 'orelse', 'finalbody'):
           b = getattr(st, fld, None)
-          if isinstance(b, list) and splice(b):
+          if isinstance(b, list) and splice(b, a, repl):
             return True
         if isinstance(st, ast.Try):
           for h in st.handlers:
-            if splice(h.body):
+            if splice(h.body, a, repl):
               return True
       return False
-    if not splice(fn.body):
+    done = True
+    for a, vals in zip(asgs, all_vals):
+      given = list(a.value.args) + [k.value for k in a.value.keywords]
+      # the field locals are bound in the order the call evaluates its arguments (defaults last)
+      order = sorted(fields, key=lambda fd: next((i for i, y in enumerate(given) if y is vals[fd[0]]), len(given)))
+      repl = [ast.copy_location(ast.Assign(targets=[ast.Name(id=f'{name}__{f}', ctx=ast.Store())], value=vals[f],
+                                           lineno=a.lineno), a) for f, _ in order]
+      for r in repl:
+        ast.fix_missing_locations(r)
+      if not splice(fn.body, a, repl):
+        done = False
+    if not done:
       continue
+
+    class _R(ast.NodeTransformer):
+      def visit_Attribute(self, x: ast.Attribute):
+        if isinstance(x.value, ast.Name) and x.value.id == name and isinstance(x.ctx, ast.Load) and x.attr in fieldset:
+          return ast.copy_location(ast.Name(id=f'{name}__{x.attr}', ctx=ast.Load()), x)
+        return self.generic_visit(x)
     _R().visit(fn)
     n += 1
   return n
@@ -2182,6 +2260,186 @@ def _pure_expr(e: ast.AST) -> bool:
 
 _fl_counter = [0]
 
+_MUTATORS = {'append', 'extend', 'pop', 'clear', 'remove', 'update', 'add', 'insert', 'sort', 'reverse', 'discard', 'setdefault',
+             'popitem', 'CopyFrom', 'MergeFrom', 'ClearField', 'Clear'}
+
+
+def _propagate_condition_locals(fn: ast.FunctionDef) -> int:
+  """`has_x = bool(x)` / `both_int = isinstance(a, int) and isinstance(b, int)`: a local bound once to a pure expression
+  and read only in condition positions (tests of if / while / conditional expressions / assert, through and / or / not)
+  is replaced by the expression where it is read; `bool(e)` in a condition position is `e`.  Nothing the expression
+  reads may be re-bound or mutated after the binding."""
+  n = 0
+  for _ in range(8):
+    parents: Dict[int, ast.AST] = {}
+    for x in ast.walk(fn):
+      for ch in ast.iter_child_nodes(x):
+        parents[id(ch)] = x
+    stores: Dict[str, List[ast.AST]] = {}
+    for x in ast.walk(fn):
+      if isinstance(x, ast.Name) and isinstance(x.ctx, (ast.Store, ast.Del)):
+        stores.setdefault(x.id, []).append(x)
+      elif isinstance(x, ast.ExceptHandler) and x.name:
+        stores.setdefault(x.name, []).extend([x, x])
+    params = {a.arg for a in fn.args.args + fn.args.kwonlyargs + fn.args.posonlyargs}
+    if fn.args.vararg:
+      params.add(fn.args.vararg.arg)
+    if fn.args.kwarg:
+      params.add(fn.args.kwarg.arg)
+    nested_names = {z.id for y in ast.walk(fn) if y is not fn and isinstance(y, (ast.FunctionDef, ast.Lambda, ast.ClassDef))
+                    for z in ast.walk(y) if isinstance(z, ast.Name)}
+
+    def cond_position(x: ast.AST) -> bool:
+      cur = x
+      while True:
+        par = parents.get(id(cur))
+        if isinstance(par, ast.BoolOp) or (isinstance(par, ast.UnaryOp) and isinstance(par.op, ast.Not)):
+          cur = par
+          continue
+        return isinstance(par, (ast.If, ast.While, ast.IfExp, ast.Assert)) and par.test is cur
+
+    def block_and_index(st: ast.stmt):
+      par = parents.get(id(st))
+      for fld in ('body', 'orelse', 'finalbody'):
+        b = getattr(par, fld, None)
+        if isinstance(b, list):
+          for i, y in enumerate(b):
+            if y is st:
+              return b, i
+      return None, None
+    changed = False
+    for st in [x for x in ast.walk(fn) if isinstance(x, ast.Assign)]:
+      if not (len(st.targets) == 1 and isinstance(st.targets[0], ast.Name)):
+        continue
+      x = st.targets[0].id
+      if len(stores.get(x, [])) != 1 or x in params or x in nested_names or x.startswith('__'):
+        continue
+      e = st.value
+      if isinstance(e, (ast.Constant, ast.Name)) or not _pure_expr(e) or any(
+          isinstance(y, (ast.ListComp, ast.SetComp, ast.DictComp, ast.GeneratorExp, ast.Starred)) for y in ast.walk(e)):
+        continue
+      loads = [y for y in ast.walk(fn) if isinstance(y, ast.Name) and y.id == x and isinstance(y.ctx, ast.Load)]
+      if not loads or not all(cond_position(y) for y in loads):
+        continue
+      blk, i = block_and_index(st)
+      if blk is None:
+        continue
+      later = blk[i + 1:]
+      later_ids = {id(z) for b in later for z in ast.walk(b)}
+      if not all(id(y) in later_ids for y in loads):
+        continue
+      roots = {y.id for y in ast.walk(e) if isinstance(y, ast.Name)}
+      # inside a loop the statements before the binding run again after it
+      in_loop = any(isinstance(a, (ast.For, ast.While)) for a in _ancestors_of(st, parents) if a is not fn)
+      if in_loop:
+        scope = list(ast.walk(fn))
+      else:
+        # what can run between the binding and a read: the statements before the one that holds the read, at every
+        # nesting level down to the read; the whole of any loop that holds the read
+        scope = []
+
+        def before(block: List[ast.stmt], y: ast.AST) -> None:
+          for b in block:
+            if any(z is y for z in ast.walk(b)):
+              if isinstance(b, (ast.For, ast.While)):
+                scope.extend(ast.walk(b))
+                return
+              for fld in ('body', 'orelse', 'finalbody'):
+                sub = getattr(b, fld, None)
+                if isinstance(sub, list) and any(z is y for s_ in sub for z in ast.walk(s_)):
+                  before(sub, y)
+                  return
+              if isinstance(b, ast.Try):
+                for h in b.handlers:
+                  if any(z is y for s_ in h.body for z in ast.walk(s_)):
+                    scope.extend(z for s_ in b.body for z in ast.walk(s_))
+                    before(h.body, y)
+                    return
+              return
+            scope.extend(ast.walk(b))
+        for y in loads:
+          before(later, y)
+      bad = False
+      for z in scope:
+        if isinstance(z, ast.Name) and z.id in roots and isinstance(z.ctx, (ast.Store, ast.Del)):
+          bad = True
+        elif isinstance(z, ast.Call) and isinstance(z.func, ast.Attribute) and z.func.attr in _MUTATORS:
+          c_ = _chain(z.func.value)
+          if c_ and c_.split('.')[0] in roots:
+            bad = True
+        elif isinstance(z, (ast.Subscript, ast.Attribute)) and isinstance(z.ctx, (ast.Store, ast.Del)):
+          c_ = _chain(z.value)
+          if c_ and c_.split('.')[0] in roots - {'self', 'cls'}:
+            bad = True
+          elif c_ and c_.split('.')[0] in ('self', 'cls') and isinstance(z, ast.Attribute):
+            # a store into self.<a>: only matters when the expression reads self.<a>
+            full = _chain(z)
+            if full and any((_chain(y) or '').startswith(full) for y in ast.walk(e) if isinstance(y, ast.Attribute)):
+              bad = True
+        elif isinstance(z, ast.AugAssign):
+          c_ = _chain(z.target) or (_chain(z.target.value) if isinstance(z.target, ast.Subscript) else None)
+          if c_ and c_.split('.')[0] in roots - {'self', 'cls'}:
+            bad = True
+        if bad:
+          break
+      if bad:
+        continue
+      for y in loads:
+        par = parents[id(y)]
+        rep = copy.deepcopy(e)
+        ast.copy_location(rep, y)
+        for fld, val in ast.iter_fields(par):
+          if val is y:
+            setattr(par, fld, rep)
+          elif isinstance(val, list):
+            for k, w in enumerate(val):
+              if w is y:
+                val[k] = rep
+      del blk[i]
+      if not blk:
+        blk.append(ast.copy_location(ast.Pass(), st))
+      n += 1
+      changed = True
+      break
+    if not changed:
+      break
+  # bool(e) in a condition position is e
+  parents = {}
+  for x in ast.walk(fn):
+    for ch in ast.iter_child_nodes(x):
+      parents[id(ch)] = x
+  for c in [x for x in ast.walk(fn) if isinstance(x, ast.Call) and isinstance(x.func, ast.Name) and x.func.id == 'bool'
+            and len(x.args) == 1 and not x.keywords]:
+    cur = c
+    while True:
+      par = parents.get(id(cur))
+      if isinstance(par, ast.BoolOp) or (isinstance(par, ast.UnaryOp) and isinstance(par.op, ast.Not)):
+        cur = par
+        continue
+      break
+    if isinstance(par, (ast.If, ast.While, ast.IfExp, ast.Assert)) and par.test is cur:
+      p0 = parents[id(c)]
+      for fld, val in ast.iter_fields(p0):
+        if val is c:
+          setattr(p0, fld, c.args[0])
+        elif isinstance(val, list):
+          for k, w in enumerate(val):
+            if w is c:
+              val[k] = c.args[0]
+      n += 1
+  if n:
+    ast.fix_missing_locations(fn)
+  return n
+
+
+def _ancestors_of(node: ast.AST, parents: Dict[int, ast.AST]) -> List[ast.AST]:
+  out = []
+  cur = parents.get(id(node))
+  while cur is not None:
+    out.append(cur)
+    cur = parents.get(id(cur))
+  return out
+
 
 def _suppress_to_try(tree: ast.Module) -> int:
   """`with contextlib.suppress(E1, E2): BODY` is `try: BODY except (E1, E2): pass`: written out so that the control-flow
@@ -2324,6 +2582,126 @@ def _inline_enum_aliases(tree: ast.Module) -> int:
           cls_aliases.pop((c.name, x.attr), None)
   T().visit(tree)
   ast.fix_missing_locations(tree)
+  return n
+
+
+def _inline_attrgetters(tree: ast.Module) -> int:
+  """`_k = operator.attrgetter('a', 'b')` (a private module-level name, or a function local, bound once): `_k(x)` is
+  `(x.a, x.b)` (`x.a` for one name) and a bare `_k` (e.g. `key=_k`) is `lambda v: (v.a, v.b)`.  Also the anonymous
+  form `operator.attrgetter('a', 'b')` in argument position."""
+  n = 0
+
+  def getter_names(v: ast.AST) -> Optional[List[str]]:
+    if isinstance(v, ast.Call) and _chain(v.func) in ('operator.attrgetter', 'attrgetter') and v.args and not v.keywords \
+        and all(isinstance(a, ast.Constant) and isinstance(a.value, str) and all(p.isidentifier() for p in a.value.split('.'))
+                for a in v.args):
+      return [a.value for a in v.args]
+    return None
+
+  def access(x: ast.AST, names: List[str]) -> ast.AST:
+    def one(nm: str) -> ast.AST:
+      e: ast.AST = copy.deepcopy(x)
+      for part in nm.split('.'):
+        e = ast.Attribute(value=e, attr=part, ctx=ast.Load())
+      return e
+    return one(names[0]) if len(names) == 1 else ast.Tuple(elts=[one(nm) for nm in names], ctx=ast.Load())
+
+  def as_lambda(names: List[str]) -> ast.AST:
+    return ast.Lambda(args=ast.arguments(posonlyargs=[], args=[ast.arg(arg='v__ag')], kwonlyargs=[], kw_defaults=[], defaults=[]),
+                      body=access(ast.Name(id='v__ag', ctx=ast.Load()), names))
+
+  def rewrite(scope: ast.AST, bound: Dict[str, List[str]]) -> None:
+    nonlocal n
+
+    class R(ast.NodeTransformer):
+      def visit_Call(self, c: ast.Call):
+        nonlocal n
+        if isinstance(c.func, ast.Name) and c.func.id in bound and len(c.args) == 1 and not c.keywords \
+            and (_simple(c.args[0]) or _pure_expr(c.args[0])):
+          c.args = [self.visit(c.args[0])]
+          n += 1
+          return ast.copy_location(access(c.args[0], bound[c.func.id]), c)
+        gn = getter_names(c.func) if isinstance(c.func, ast.Call) else None
+        if gn is not None and len(c.args) == 1 and not c.keywords and (_simple(c.args[0]) or _pure_expr(c.args[0])):
+          n += 1
+          return ast.copy_location(access(self.visit(c.args[0]), gn), c)
+        self.generic_visit(c)
+        return c
+
+      def visit_Name(self, x: ast.Name):
+        nonlocal n
+        if isinstance(x.ctx, ast.Load) and x.id in bound:
+          n += 1
+          return ast.copy_location(as_lambda(bound[x.id]), x)
+        return x
+
+      def visit_keyword(self, k: ast.keyword):
+        nonlocal n
+        gn = getter_names(k.value)
+        if gn is not None:
+          n += 1
+          k.value = ast.copy_location(as_lambda(gn), k.value)
+          return k
+        self.generic_visit(k)
+        return k
+    R().visit(scope)
+    ast.fix_missing_locations(scope)
+
+  def collect(stmts: List[ast.stmt], scope: ast.AST, private_only: bool) -> Dict[str, List[str]]:
+    stores: Dict[str, int] = {}
+    for x in ast.walk(scope):
+      if isinstance(x, ast.Name) and isinstance(x.ctx, (ast.Store, ast.Del)):
+        stores[x.id] = stores.get(x.id, 0) + 1
+    bound: Dict[str, List[str]] = {}
+    for st in list(stmts):
+      if isinstance(st, ast.Assign) and len(st.targets) == 1 and isinstance(st.targets[0], ast.Name):
+        nm = st.targets[0].id
+        gn = getter_names(st.value)
+        if gn is not None and stores.get(nm) == 1 and (not private_only or (nm.startswith('_') and not nm.startswith('__'))):
+          bound[nm] = gn
+          stmts.remove(st)
+    return bound
+  mod_bound = collect(tree.body, tree, True)
+  rewrite(tree, mod_bound)   # with an empty table this still rewrites the anonymous forms
+  for fn in [x for x in ast.walk(tree) if isinstance(x, ast.FunctionDef)]:
+    b = collect(fn.body, fn, False)
+    if b:
+      if not fn.body:
+        fn.body.append(ast.copy_location(ast.Pass(), fn))
+      rewrite(fn, b)
+  return n
+
+
+def _wrapper_bindings_to_decorators(tree: ast.Module) -> int:
+  """`def _f_impl(..): ...` + `_f = jax.jit(_f_impl, static_argnames=...)` at module level, `_f_impl` mentioned nowhere
+  else, is the decorated definition `@functools.partial(jax.jit, static_argnames=...) def _f(..)`."""
+  n = 0
+  defs = {st.name: st for st in tree.body if isinstance(st, ast.FunctionDef)}
+  for st in list(tree.body):
+    if not (isinstance(st, ast.Assign) and len(st.targets) == 1 and isinstance(st.targets[0], ast.Name)
+            and isinstance(st.value, ast.Call) and st.value.args and isinstance(st.value.args[0], ast.Name)):
+      continue
+    w = _chain(st.value.func) or ''
+    f = st.value.args[0].id
+    x = st.targets[0].id
+    if not (w == 'jit' or w.endswith('.jit')) or len(st.value.args) != 1 or f not in defs or x in defs or not f.startswith('_'):
+      continue
+    mentions = [z for z in ast.walk(tree) if isinstance(z, ast.Name) and z.id == f]
+    xstores = [z for z in ast.walk(tree) if isinstance(z, ast.Name) and z.id == x and isinstance(z.ctx, (ast.Store, ast.Del))]
+    if len(mentions) != 1 or len(xstores) != 1:
+      continue
+    fn = defs[f]
+    if st.value.keywords:
+      dec: ast.AST = ast.Call(func=ast.Attribute(value=ast.Name(id='functools', ctx=ast.Load()), attr='partial', ctx=ast.Load()),
+                              args=[st.value.func], keywords=list(st.value.keywords))
+    else:
+      dec = st.value.func
+    ast.copy_location(dec, fn)
+    ast.fix_missing_locations(dec)
+    fn.decorator_list.append(dec)
+    fn.name = x
+    tree.body.remove(st)
+    n += 1
   return n
 
 
@@ -2625,7 +3003,7 @@ def _propagate_param_aliases(fn: ast.FunctionDef) -> int:
 def normalise(tree: ast.Module, exclude: Optional[Set[str]] = None) -> int:
   """Inlines suitable private helpers in place; returns the number of inlined call sites."""
   ex = anchors() if exclude is None else exclude
-  n_disp = _inline_enum_aliases(tree) + _suppress_to_try(tree) + _map_to_genexp(tree) + _expand_dispatch_tables(tree)
+  n_disp = _wrapper_bindings_to_decorators(tree) + _inline_attrgetters(tree) + _inline_enum_aliases(tree) + _suppress_to_try(tree) + _map_to_genexp(tree) + _expand_dispatch_tables(tree)
   inl = _Inliner(tree, ex)
   n = inl.run() + n_disp
   n += _unroll_literal_loops(tree)
@@ -2641,6 +3019,7 @@ def normalise(tree: ast.Module, exclude: Optional[Set[str]] = None) -> int:
         if _sroa_function(x, records):
           n += 1 + _propagate_name_aliases(x)
         n += _soa_record_lists(x, records)
+      n += _propagate_condition_locals(x)
       n += _filter_loops_to_comprehensions(x)
   for x in ast.walk(tree):
     if isinstance(x, ast.FunctionDef):
